@@ -959,9 +959,16 @@ def e3_run_case(project, history, seed, family="e3_gen", info=None, vary=True):
             if vary:
                 for p in sorted(owned):
                     full = os.path.join(root, p)
-                    if os.path.isfile(full) and trng.random() < 0.12:
-                        e3.write_file(full, "user tampered " + p)
-                        tampered.append(p)
+                    if os.path.isfile(full) and not os.path.islink(full) and trng.random() < 0.12:
+                        if trng.random() < 0.4:
+                            # the user puts a symbolic link to a file of their own in place of the output
+                            e3.write_file(full + ".mine", "the user's own version of " + p)
+                            os.remove(full)
+                            os.symlink(os.path.basename(full) + ".mine", full)
+                            tampered.append(p + " (replaced by a symbolic link)")
+                        else:
+                            e3.write_file(full, "user tampered " + p)
+                            tampered.append(p)
             before_files, _, before_dirs = e3.snapshot_tree(root)
             kw = {"clean": True}
             if vary:
@@ -1045,6 +1052,17 @@ def _gstate(graph, p):
     return None, None
 
 
+def _e3_through(files, p, hops=8):
+    """Content read through p in an e3 snapshot (symbolic links are stored as 'SYMLINK->target'); None when the
+    chain leaves the snapshot."""
+    c = files.get(p)
+    while isinstance(c, str) and c.startswith("SYMLINK->") and hops > 0:
+        p = os.path.normpath(os.path.join(os.path.dirname(p), c[len("SYMLINK->"):]))
+        c = files.get(p)
+        hops -= 1
+    return c
+
+
 def e3_oracle_c06(rec):
     from . import e3
     out = []
@@ -1069,11 +1087,12 @@ def e3_oracle_c06(rec):
             out.append(("oracle:e3:removed-file:never-written-by-a-step", f"{p} was removed; no step of any build wrote it {where}"))
         elif p not in rec["owned"] or owned_after[p] != rec["owned"][p]:
             continue      # a step (re)wrote it during this very build; its content at removal time is not observed
-        elif e3._digest(bf[p]) != rec["owned"][p]:
+        elif e3._digest(_e3_through(bf, p)) != rec["owned"][p]:
             st, _ = _gstate(rec["prev_graph"], p)
             if st != "VOLATILE":
-                out.append(("oracle:e3:removed-file:modified-output",
-                            f"{p} was modified after StepUp wrote it (state {st}) and was removed"))
+                kind = "symlink" if str(bf[p]).startswith("SYMLINK->") else "regular"
+                out.append((f"oracle:e3:removed-file:modified-output:{kind}",
+                            f"{p} ({kind}: {str(bf[p])[:60]!r}) no longer held what StepUp wrote (state {st}) and was removed"))
     for d in removed_dirs:
         if f"st:{d}" in rec["graph"]:
             out.append(("oracle:finalize:removed-dir:attached-static-tree",
